@@ -1371,6 +1371,22 @@ impl<'a> Gen<'a> {
                             }
                         }
                     }
+                    syn::Expr::ForLoop(fl) if self.g.rules.contains("G3") && fl.label.is_none() => {
+                        // G3: `for PAT in EXPR { B }` -> `{ let mut it = IntoIterator::into_iter(EXPR); loop <spec> { let Some(PAT) =
+                        // it.next() else { break; }; B } }` - the desugaring of `for`, spelled out, because Verus rejects `continue`
+                        // inside a `for` but accepts it inside a `loop`. PAT, EXPR and B are the real text; `//@loop K` text lands
+                        // between `loop` and the body as for any loop, `//@inside-start for#K` after the `let Some(..)` line.
+                        let whole = br(e.span());
+                        let pat = self.g.src[br(fl.pat.span())].to_string();
+                        let expr = br(fl.expr.span());
+                        let body = br(fl.body.span());
+                        self.g.rule_log("G3", &whole, "`for` spelled out as into_iter + loop + next (so that `continue` is accepted)");
+                        let o = self.g.gen("G3");
+                        self.g.rep(whole.start..expr.start, "{ let mut it = core::iter::IntoIterator::into_iter(".into(), o.clone(), "rewrite");
+                        self.g.ins(expr.end, "); loop ".into(), o.clone(), "rewrite");
+                        self.g.ins(body.start + 1, format!(" let Some({pat}) = it.next() else {{ break; }}; "), o.clone(), "rewrite");
+                        self.g.ins(body.end, " }".into(), o, "rewrite");
+                    }
                     syn::Expr::ForLoop(fl) if self.g.rules.contains("R12") => {
                         if let syn::Expr::MethodCall(mc) = &*fl.expr {
                             if mc.method == "chain" && mc.args.len() == 1 {
